@@ -224,6 +224,28 @@ func getC16Tree(seed uint64) (*c16Tree, error) {
 			return nil, err
 		}
 	}
+	// a function too large to fingerprint (more than 5000 basic blocks) that
+	// contains ordinary function literals: the literals are functions with bodies
+	if seed%4 == 3 {
+		var b strings.Builder
+		b.WriteString("package hugepkg\n\nfunc Huge(k int) int {\n\tf := func(x int) int {\n\t\tg := func() int { return x * 2 }\n\t\treturn g()\n\t}\n\tr := 0\n")
+		for i := 0; i < 2700; i++ {
+			fmt.Fprintf(&b, "\tif k == %d {\n\t\tr += f(%d)\n\t}\n", i, i)
+		}
+		b.WriteString("\treturn r\n}\n\nfunc AfterHuge(a int) int { return a + 1 }\n")
+		if err := add("hugepkg/huge.go", b.String(), true, true); err != nil {
+			return nil, err
+		}
+	}
+	// a wide tree: more single-file packages than any batch size the tool might use
+	if seed%16 == 11 {
+		for i := 0; i < 262; i++ {
+			pkg := fmt.Sprintf("w%03d", i)
+			if err := add("wide/"+pkg+"/f.go", small(pkg, fmt.Sprintf("Wide%03d", i)), true, true); err != nil {
+				return nil, err
+			}
+		}
+	}
 	// a tiny JSON signature database (content irrelevant for coverage)
 	c.jsonDB = filepath.Join(root, "sigs.json")
 	os.WriteFile(c.jsonDB, []byte(`{"version":"1.0","description":"c16","signatures":[{"id":"S1","name":"s","description":"","severity":"LOW","category":"c","topology_hash":"00","entropy_score":1,"entropy_tolerance":0.1,"node_count":1,"loop_depth":0,"identifying_features":{},"metadata":{"author":"","created":""}}]}`), 0o644)
